@@ -393,6 +393,13 @@ class Sccp:
             m = _re.match(r"promoted\{(\d+)_\w+, core::option::Option::Some\}", c["str"])
             if m:
                 return V("Some", I(int(m.group(1))))
+            # Some(<unit variant>) / a unit variant, promoted (`== Some(Ordering::Greater)`)
+            m = _re.match(r"promoted\{((?:\w+::)+\w+), core::option::Option::Some\}$", c["str"])
+            if m:
+                return V("Some", V(m.group(1).split("::")[-1]))
+            m = _re.match(r"promoted\{((?:\w+::)+\w+)\}$", c["str"])
+            if m and m.group(1)[0].islower() and m.group(1).split("::")[-1][0].isupper():
+                return V(m.group(1).split("::")[-1])
         return None
 
     def _field_value(self, place):
@@ -819,6 +826,19 @@ def combinator_model(facts, inner=None, depth=0, field_model=None, callees=None)
             d = differ(argv[0], argv[1])
             if d is not None:
                 return I(int(d if p.endswith("::ne") else not d))
+        ints = len(argv) == 2 and all(a is not None and a[0] == "i" for a in argv)
+        if ints and p in ("core::cmp::Ord::cmp", "core::cmp::PartialOrd::partial_cmp"):
+            o = V("Less" if argv[0][1] < argv[1][1] else ("Equal" if argv[0][1] == argv[1][1] else "Greater"))
+            return o if p.endswith("::cmp") else V("Some", o)
+        if ints and p in ("core::cmp::PartialOrd::lt", "core::cmp::PartialOrd::le", "core::cmp::PartialOrd::gt", "core::cmp::PartialOrd::ge"):
+            x_, y_ = argv[0][1], argv[1][1]
+            return I(int({"lt": x_ < y_, "le": x_ <= y_, "gt": x_ > y_, "ge": x_ >= y_}[p[-2:]]))
+        if ints and p in ("core::cmp::max", "core::cmp::Ord::max"):
+            return I(max(argv[0][1], argv[1][1]))
+        if ints and p in ("core::cmp::min", "core::cmp::Ord::min"):
+            return I(min(argv[0][1], argv[1][1]))
+        if ints and p.endswith("::saturating_sub") and p.split("::")[0] in ("usize", "u64", "u32", "u8", "u16", "core"):
+            return I(max(0, argv[0][1] - argv[1][1]))
         if p.endswith(("Option::map_or", "Result::map_or")):
             if va in ("None", "Err"):
                 return argv[1]
